@@ -8,6 +8,7 @@ export GOFLAGS=-mod=mod GOPROXY=off GOSUMDB=off GOTOOLCHAIN=local
 cd "$(dirname "$0")" || exit 2
 here="$(pwd)"
 export VERIF_DIR="${VERIF_DIR:-$here}"
+export VERIF_HOME="$here"
 mkdir -p bin "$VERIF_DIR/evidence" "$VERIF_DIR/replay"
 modflag=""
 if [ -n "$VERIF_REPO" ]; then
